@@ -64,6 +64,10 @@ fn main() {
         checks::c08::worker_main(&args[2..]);
         return;
     }
+    if args.len() >= 3 && args[1] == "c08min" {
+        checks::c08::minimize_main(&args[2..]);
+        return;
+    }
     if args.len() >= 4 && args[1] == "genprog" {
         let (t, f) = checks::c01::generated_program(args[2].parse().unwrap_or(1), args[3].parse().unwrap_or(0));
         println!("// features: {:?}\n{}", f, t);
